@@ -41,6 +41,112 @@ def coherent(chk, repo, clause):
                f.loc())
 
 
+def mask_cache_rule(chk, repo, clause):
+    """Whatever a plane caches from its mask is recomputed wherever the mask is replaced (C03-e; C17-d: rescale)."""
+    # what the constructor caches from the mask (the bounding slices, and anything computed from them): each of these has to
+    # be recomputed wherever the mask is replaced
+    derived = {'_slice'}
+    try:
+        _, ipaths, _ = analyse(repo, repo.func('plane.Plane.__init__'))
+        for p in returns(ipaths) + [q for q in ipaths if q.status == 'fall']:
+            seen_mask = False
+            roots = set()
+            for e in p.events:
+                if e.kind == 'write' and e.data.get('how') == 'attrstore' and e.target == SELF:
+                    at = e.data.get('attr')
+                    if at == '_mask':
+                        seen_mask = True
+                        roots |= {x for x in nf.value_atoms(e.data.get('value')) if x[0] in ('app', 'idx')}
+                        roots |= {nf.attr(SELF, '_mask').single_atom(), nf.attr(SELF, 'mask').single_atom()}
+                    elif seen_mask and at not in ('_mask',) and e.data.get('value') is not None:
+                        va = nf.value_atoms(e.data['value'])
+                        dep = {nf.attr(SELF, d).single_atom() for d in derived} | {nf.attr(SELF, 'shape').single_atom(),
+                                                                                    nf.attr(SELF, 'size').single_atom()}
+                        if at.startswith('_') and ((va & roots and at == '_slice') or (va & dep)):
+                            derived.add(at)
+    except AnalysisError:
+        pass
+    # caches filled on first use (a method that stores a private attribute computed from the mask) are derived values too
+    for fn in repo.all_functions():
+        if fn.module.name != 'plane' or fn.name == '__init__' or fn.is_setter:
+            continue
+        if not any(isinstance(x, ast.Attribute) and isinstance(x.ctx, ast.Store) and x.attr.startswith('_') and x.attr != '_mask'
+                   and isinstance(x.value, ast.Name) and x.value.id == 'self' for x in ast.walk(fn.node)):
+            continue
+        try:
+            _, lpaths, _ = analyse(repo, fn)
+        except AnalysisError:
+            continue
+        dep = {nf.attr(SELF, d).single_atom() for d in ('mask', '_mask', 'shape', 'size', 'global_mask')}
+        for p in lpaths:
+            for e in p.events:
+                if e.kind == 'write' and e.data.get('how') == 'attrstore' and e.target == SELF and e.depth == 0 \
+                        and e.data.get('value') is not None and str(e.data.get('attr', '')).startswith('_') \
+                        and e.data['attr'] != '_mask' and nf.value_atoms(e.data['value']) & dep:
+                    derived.add(e.data['attr'])
+    n = 0
+    for fn in repo.all_functions():
+        if fn.module.name != 'plane':
+            continue
+        if not any(isinstance(x, (ast.Assign, ast.AugAssign, ast.AnnAssign)) and
+                   any(isinstance(t, ast.Attribute) and t.attr == '_mask'
+                       for t in (x.targets if isinstance(x, ast.Assign) else [x.target])) for x in ast.walk(fn.node)):
+            continue
+        n += 1
+        with chk.guard([clause], fn.key):
+            _, fpaths, _ = analyse(repo, fn)
+            ok, det, where = True, '', fn.loc()
+            n_paths = 0
+            for p in returns(fpaths) + [q for q in fpaths if q.status == 'fall']:
+                ms = [(i, e) for i, e in enumerate(p.events) if e.kind == 'write' and e.data.get('how') == 'attrstore'
+                      and e.data.get('attr') == '_mask']
+                if not ms:
+                    continue
+                n_paths += 1
+                i, last = ms[-1]
+                obj, val = last.target, last.data.get('value')
+                fresh = [e for e in p.events[i + 1:] if e.kind == 'write' and e.data.get('how') == 'attrstore'
+                         and e.data.get('attr') == '_slice' and e.target == obj]
+                good = False
+                for e in fresh[-1:]:
+                    a = e.data['value'].single_atom() if isinstance(e.data.get('value'), Poly) else None
+                    if a is not None and is_app(a, 'call:plane._plane_slice'):
+                        arg = dict((k.items[0].value, k.items[1]) for k in a[2]).get('mask')
+                        good = arg == val or arg == nf.attr(obj, '_mask') or arg == nf.attr(obj, 'mask')
+                    elif e.data.get('value') is not None:
+                        # the helper evaluated in place (moved, renamed, turned into a method): the refreshed cache is computed
+                        # from the mask that was stored when the value, or a condition it was selected under, reads that mask
+                        mine = nf.value_atoms(val) | {nf.attr(obj, '_mask').single_atom(), nf.attr(obj, 'mask').single_atom()}
+                        mine = {x for x in mine if x[0] in ('sym', 'attr', 'app', 'idx', 'fresh')}
+                        reads = nf.value_atoms(e.data['value']) | {x for c, _, _ in p.conds for x in nf.value_atoms(c)}
+                        good = True if (mine & reads) else None
+                stale = [d for d in sorted(derived - {'_slice'})
+                         if not any(e.kind == 'write' and e.data.get('how') == 'attrstore' and e.data.get('attr') == d and e.target == obj
+                                    for e in p.events[i + 1:])]
+                if stale and good is not False:
+                    ok = False
+                    det = (f'{fmt(obj)[:40]}._mask is replaced but {", ".join("." + d for d in stale)}, which the constructor computes from '
+                           f'the mask, keeps its old value')
+                    where = fn.loc(last.node)
+                    continue
+                if good is None:
+                    ok = None if ok else ok
+                    det = f'{fmt(obj)[:40]}._slice is refreshed with {fmt(fresh[-1].data["value"])[:60]}; its dependence on the mask is not visible'
+                    continue
+                if not good:
+                    ok = False
+                    det = (f'{fmt(obj)[:40]}._mask is stored and the path ends with ._slice = '
+                           f'{fmt(fresh[-1].data["value"])[:100] if fresh else "<not refreshed>"}')
+                    where = fn.loc(last.node)
+            if n_paths == 0:
+                raise AnalysisError(f'{fn.key}: no path storing ._mask')
+            chk.ob(clause, 'D-pairing', fn.key, 'slice cache refreshed after the mask assignment', ok,
+                   det or f'{n_paths} path(s): the last ._mask store is followed by ._slice = _plane_slice(that mask)', where)
+    if n < 2:
+        raise AnalysisError(f'only {n} functions assigning ._mask found (Plane.__init__ and Plane.rescale expected)')
+
+
+
 def run(chk, repo, tier):
     from .common import no_hidden_state
     no_hidden_state(chk, repo, 'C03')
@@ -185,89 +291,7 @@ def run(chk, repo, tier):
                f'tilt = {fmt(tilt)}', f.loc(e.node))
 
     # ---------------------------------------------------------------- C03-e
-    # what the constructor caches from the mask (the bounding slices, and anything computed from them): each of these has to
-    # be recomputed wherever the mask is replaced
-    derived = {'_slice'}
-    try:
-        _, ipaths, _ = analyse(repo, repo.func('plane.Plane.__init__'))
-        for p in returns(ipaths) + [q for q in ipaths if q.status == 'fall']:
-            seen_mask = False
-            roots = set()
-            for e in p.events:
-                if e.kind == 'write' and e.data.get('how') == 'attrstore' and e.target == SELF:
-                    at = e.data.get('attr')
-                    if at == '_mask':
-                        seen_mask = True
-                        roots |= {x for x in nf.value_atoms(e.data.get('value')) if x[0] in ('app', 'idx')}
-                        roots |= {nf.attr(SELF, '_mask').single_atom(), nf.attr(SELF, 'mask').single_atom()}
-                    elif seen_mask and at not in ('_mask',) and e.data.get('value') is not None:
-                        va = nf.value_atoms(e.data['value'])
-                        dep = {nf.attr(SELF, d).single_atom() for d in derived} | {nf.attr(SELF, 'shape').single_atom(),
-                                                                                    nf.attr(SELF, 'size').single_atom()}
-                        if at.startswith('_') and ((va & roots and at == '_slice') or (va & dep)):
-                            derived.add(at)
-    except AnalysisError:
-        pass
-    n = 0
-    for fn in repo.all_functions():
-        if fn.module.name != 'plane':
-            continue
-        if not any(isinstance(x, (ast.Assign, ast.AugAssign, ast.AnnAssign)) and
-                   any(isinstance(t, ast.Attribute) and t.attr == '_mask'
-                       for t in (x.targets if isinstance(x, ast.Assign) else [x.target])) for x in ast.walk(fn.node)):
-            continue
-        n += 1
-        with chk.guard(['C03-e'], fn.key):
-            _, fpaths, _ = analyse(repo, fn)
-            ok, det, where = True, '', fn.loc()
-            n_paths = 0
-            for p in returns(fpaths) + [q for q in fpaths if q.status == 'fall']:
-                ms = [(i, e) for i, e in enumerate(p.events) if e.kind == 'write' and e.data.get('how') == 'attrstore'
-                      and e.data.get('attr') == '_mask']
-                if not ms:
-                    continue
-                n_paths += 1
-                i, last = ms[-1]
-                obj, val = last.target, last.data.get('value')
-                fresh = [e for e in p.events[i + 1:] if e.kind == 'write' and e.data.get('how') == 'attrstore'
-                         and e.data.get('attr') == '_slice' and e.target == obj]
-                good = False
-                for e in fresh[-1:]:
-                    a = e.data['value'].single_atom() if isinstance(e.data.get('value'), Poly) else None
-                    if a is not None and is_app(a, 'call:plane._plane_slice'):
-                        arg = dict((k.items[0].value, k.items[1]) for k in a[2]).get('mask')
-                        good = arg == val or arg == nf.attr(obj, '_mask') or arg == nf.attr(obj, 'mask')
-                    elif e.data.get('value') is not None:
-                        # the helper evaluated in place (moved, renamed, turned into a method): the refreshed cache is computed
-                        # from the mask that was stored when the value, or a condition it was selected under, reads that mask
-                        mine = nf.value_atoms(val) | {nf.attr(obj, '_mask').single_atom(), nf.attr(obj, 'mask').single_atom()}
-                        mine = {x for x in mine if x[0] in ('sym', 'attr', 'app', 'idx', 'fresh')}
-                        reads = nf.value_atoms(e.data['value']) | {x for c, _, _ in p.conds for x in nf.value_atoms(c)}
-                        good = True if (mine & reads) else None
-                stale = [d for d in sorted(derived - {'_slice'})
-                         if not any(e.kind == 'write' and e.data.get('how') == 'attrstore' and e.data.get('attr') == d and e.target == obj
-                                    for e in p.events[i + 1:])]
-                if stale and good is not False:
-                    ok = False
-                    det = (f'{fmt(obj)[:40]}._mask is replaced but {", ".join("." + d for d in stale)}, which the constructor computes from '
-                           f'the mask, keeps its old value')
-                    where = fn.loc(last.node)
-                    continue
-                if good is None:
-                    ok = None if ok else ok
-                    det = f'{fmt(obj)[:40]}._slice is refreshed with {fmt(fresh[-1].data["value"])[:60]}; its dependence on the mask is not visible'
-                    continue
-                if not good:
-                    ok = False
-                    det = (f'{fmt(obj)[:40]}._mask is stored and the path ends with ._slice = '
-                           f'{fmt(fresh[-1].data["value"])[:100] if fresh else "<not refreshed>"}')
-                    where = fn.loc(last.node)
-            if n_paths == 0:
-                raise AnalysisError(f'{fn.key}: no path storing ._mask')
-            chk.ob('C03-e', 'D-pairing', fn.key, 'slice cache refreshed after the mask assignment', ok,
-                   det or f'{n_paths} path(s): the last ._mask store is followed by ._slice = _plane_slice(that mask)', where)
-    if n < 2:
-        raise AnalysisError(f'only {n} functions assigning ._mask found (Plane.__init__ and Plane.rescale expected)')
+    mask_cache_rule(chk, repo, 'C03-e')
 
     # ---------------------------------------------------------------- C03-g
     for cfg, label in configs():
